@@ -347,6 +347,27 @@ def finalizer_stats_case(item):
         shutil.rmtree(root, ignore_errors=True)
 
 
+def model_subflow(rep):
+    """SubFlow.tla: a Flow consumed through load((descriptor, res_iter)); the repaired consumer (final pull + drained skips) satisfies
+    UpstreamCompletes / ObserverSawAll / FailureSurfaces / NoCommitOfUnread / Termination for every selection, each pinned half is refuted"""
+    wd = tlc.workdir('c05s')
+    invs = ['UpstreamCompletes', 'ObserverSawAll', 'FailureSurfaces', 'NoCommitOfUnread']
+    for sel in ('{1, 2, 3}', '{2}', '{1, 3}', '{}'):
+        for fe in ('FALSE', 'TRUE'):
+            cfg = tlc.write_cfg(os.path.join(wd, 'ok.cfg'), spec='Spec', invariants=invs, properties=['Termination'],
+                                constants={'N': 3, 'R': 2, 'Selected': sel, 'FinalPullDone': 'TRUE', 'DrainSkipped': 'TRUE', 'FailsAtEnd': fe})
+            res = tlc.run_tlc('SubFlow', cfg, allow_violation=False)
+            rep.add_tlc(res, 'SubFlow N=3 R=2 Selected=%s FailsAtEnd=%s: the repaired consumer' % (sel, fe))
+    for fp, dr, sel, fe, want in (('FALSE', 'TRUE', '{1, 2, 3}', 'FALSE', 'UpstreamCompletes'), ('FALSE', 'TRUE', '{1, 2, 3}', 'TRUE', 'FailureSurfaces'),
+                                  ('TRUE', 'FALSE', '{2}', 'FALSE', 'ObserverSawAll')):
+        cfg = tlc.write_cfg(os.path.join(wd, 'pin.cfg'), spec='Spec', invariants=invs,
+                            constants={'N': 3, 'R': 2, 'Selected': sel, 'FinalPullDone': fp, 'DrainSkipped': dr, 'FailsAtEnd': fe})
+        r0 = tlc.run_tlc('SubFlow', cfg)
+        if r0.violated != want:
+            raise tlc.MachineryError('non-vacuity: SubFlow FinalPullDone=%s DrainSkipped=%s must violate %s (got %s)' % (fp, dr, want, r0.violated))
+    rep.notes['subflow_non_vacuity'] = 'without the final pull UpstreamCompletes / FailureSurfaces are refuted; with the final pull but unread skips ObserverSawAll is refuted'
+
+
 def model_printer(rep, t):
     wd = tlc.workdir('c05p')
     consts = {'MaxN': 60 if t == 'quick' else 130, 'Nums': '{1, 2, 3, 10}', 'Lasts': '{0, 1, 3}'}
@@ -489,6 +510,7 @@ def run():
         if not out['ok']:
             rep.violation(it, dict(case=it, **{k: v for k, v in out.items() if k != 'ok'}),
                           category='menu/%s/%s' % (it['obs'], out['why'][:50]))
+    model_subflow(rep)
     uitems = [dict(upstream=True, obs=o, shape=sh) for o in ('dump_to_path', 'dump_to_zip', 'stream', 'checkpoint', 'finalizer') for sh in ([2], [0], [2, 0, 3])]
     uitems += [dict(upstream=True, obs=o, shape=[2, 1, 3], select=k) for o in ('dump_to_path', 'dump_to_zip', 'stream', 'checkpoint', 'finalizer') for k in (0, 1, -1)]
     for it, out in zip(uitems, pmap(upstream_observer_case, uitems, chunksize=2)):
